@@ -162,6 +162,13 @@ func isValidBits(x int) bool {
 }
 
 func bitsFromASCII(p []byte) (WindowBits, bool) {
+	// httphead.IntFromASCII only tests the high nibble of every byte and
+	// therefore takes ':' .. '?' for digits.
+	for _, c := range p {
+		if c < '0' || '9' < c {
+			return 0, false
+		}
+	}
 	n, ok := httphead.IntFromASCII(p)
 	if !ok || !isValidBits(n) {
 		return 0, false
